@@ -30,7 +30,7 @@ type kase struct {
 // exclusions derived from the listed known findings.
 func exclusions() map[string]bool {
 	ex := map[string]bool{}
-	for _, k := range []string{wagen.ExclShiftGEWidth, wagen.ExclMinDivNeg1, wagen.ExclFloatToUintBig, wagen.ExclArrayEq, wagen.ExclStructEq} {
+	for _, k := range []string{wagen.ExclShiftGEWidth, wagen.ExclMinDivNeg1, wagen.ExclFloatToUintBig, wagen.ExclArrayEq, wagen.ExclStructEq, wagen.ExclIntI32Iface} {
 		if core.IsKnown(prop, k) {
 			ex[k] = true
 		}
@@ -209,6 +209,11 @@ func replay(test string, raw json.RawMessage) (string, string) {
 	v := judge(getWorker(), k)
 	if v.domain != "" {
 		return "", ""
+	}
+	// Reproducers of listed findings carry the finding's structural key as their
+	// test name ("key:<key>"): a mismatch on that minimal program IS that finding.
+	if strings.HasPrefix(test, "key:") && v.key != "" {
+		return strings.TrimPrefix(test, "key:"), v.what
 	}
 	return v.key, v.what
 }
